@@ -660,7 +660,19 @@ fn compile_text_k(_case: &Value, inputs: &Value) -> Value {
         Some(e) if !e.is_null() => json!(result.get("ok") == Some(e)),
         _ => Value::Null,
     };
-    json!({"compiled": compiled, "symbols": symv, "result": result, "matches_expect": matches})
+    let mut out = json!({"compiled": compiled, "symbols": symv, "result": result, "matches_expect": matches});
+    if let Some(src_b) = inputs.get("source_b").and_then(|v| v.as_str()) {
+        // a second build of the same program (other dialect sigil / optimise flag) on the same arguments
+        let mut b = inputs.clone();
+        b["source"] = json!(src_b);
+        b["optimize"] = inputs["optimize_b"].clone();
+        b.as_object_mut().unwrap().remove("source_b");
+        let rb = compile_text_k(_case, &b);
+        out["result_b"] = rb.get("result").cloned().unwrap_or(json!({"compile_err": rb.get("compile_err")}));
+        out["compiled_b"] = rb.get("compiled").cloned().unwrap_or(Value::Null);
+        out["matches_expect_b"] = rb.get("matches_expect").cloned().unwrap_or(Value::Null);
+    }
+    out
 }
 
 // classic compiler (no dialect sigil) through the library entry point, then run
